@@ -222,6 +222,9 @@ func Serve4(ifi net.Interface, hs []handler.Handler4, dgrams [][]byte, oobIf int
 	server.VerifSetFrameSink(func(f server.VerifFrame) { out.Frames = append(out.Frames, f) })
 	defer server.VerifSetFrameSink(nil)
 	run := verifsched.NewRun(nil)
+	// default schedule (the running thread continues whenever it can) without a bound on the
+	// number of choice points: histories of thousands of datagrams go through one loop
+	run.Policy, run.MaxSteps = func([]int, int) int { return 0 }, 200_000_000
 	run.Spawn("serve", func() { l.Serve() })
 	run.Start()
 	for t := 0; t < run.NumThreads(); t++ {
@@ -252,6 +255,9 @@ func Serve6(ifi net.Interface, hs []handler.Handler6, dgrams [][]byte, oobIf int
 	l := server.NewVerifListener6(ifi, hs, io)
 	defer l.Release()
 	run := verifsched.NewRun(nil)
+	// default schedule (the running thread continues whenever it can) without a bound on the
+	// number of choice points: histories of thousands of datagrams go through one loop
+	run.Policy, run.MaxSteps = func([]int, int) int { return 0 }, 200_000_000
 	run.Spawn("serve", func() { l.Serve() })
 	run.Start()
 	for t := 0; t < run.NumThreads(); t++ {
